@@ -203,20 +203,23 @@ def addCov (cov : List String) (tags : List String) : List String :=
     narrowed by its repair, so its pattern stays) -/
 def repairedIds (fx : Fixes) : List Nat :=
   (if fx.readOrder then [1] else []) ++ (if fx.childRenamedIn then [7] else [])
-  ++ (if fx.createOverDir then [9] else []) ++ (if fx.syncRenameBoth then [11] else [])
+  ++ (if fx.createOverDir then [9] else []) ++ (if fx.fsyncResolve then [10] else [])
+  ++ (if fx.syncRenameBoth then [11] else [])
 
 def fxName (fx : Fixes) : String :=
-  "+".intercalate ((if fx.readOrder then ["1"] else []) ++ (if fx.renameKind then ["5"] else [])
+  "+".intercalate ((if fx.readOrder then ["1"] else []) ++ (if fx.dataKeyResolve then ["3"] else [])
+    ++ (if fx.renameKind then ["5"] else [])
     ++ (if fx.childRenamedIn then ["7"] else []) ++ (if fx.createOverDir then ["9"] else [])
-    ++ (if fx.syncRenameBoth then ["11"] else []))
+    ++ (if fx.fsyncResolve then ["10"] else []) ++ (if fx.syncRenameBoth then ["11"] else []))
 
 /-- all repair-flag combinations, fewest flags first -/
 def allFixes : List Fixes :=
   let bools := [false, true]
   let all : List Fixes := bools.flatMap fun a => bools.flatMap fun b => bools.flatMap fun c =>
-    bools.flatMap fun d => bools.map fun e =>
-      { readOrder := a, renameKind := b, childRenamedIn := c, createOverDir := d, syncRenameBoth := e }
-  let cnt (f : Fixes) : Nat := (fxName f).length
+    bools.flatMap fun d => bools.flatMap fun e => bools.flatMap fun f => bools.map fun g =>
+      { readOrder := a, renameKind := b, childRenamedIn := c, createOverDir := d, syncRenameBoth := e,
+        fsyncResolve := f, dataKeyResolve := g }
+  let cnt (f : Fixes) : Nat := ((fxName f).splitOn "+").length
   (all.filter (· != {})).toArray.qsort (fun x y => cnt x < cnt y) |>.toList
 
 def evalCase (prop : String) (c : CaseIn) (fx : Fixes := {}) : Verdict := Id.run do
@@ -304,7 +307,8 @@ def parseCfg (c : CaseIn) (toks : List String) : CaseIn := Id.run do
 def parseFx (s : String) : Fixes :=
   let ids := (s.splitOn "+").map natOf
   { readOrder := ids.contains 1, renameKind := ids.contains 5, childRenamedIn := ids.contains 7,
-    createOverDir := ids.contains 9, syncRenameBoth := ids.contains 11 }
+    createOverDir := ids.contains 9, syncRenameBoth := ids.contains 11, fsyncResolve := ids.contains 10,
+    dataKeyResolve := ids.contains 3 }
 
 /-- the variant tried first (`--fx 1+9`; default: the code as found) -/
 def noFx : Fixes := {}
